@@ -20,6 +20,9 @@ Component lemmas (each usable on its own by the differential check):
                         `readFENRaw_toFEN`, `readFEN_toFEN`
 * anchors             — `readFEN_toFEN_start`, `readFEN_toFEN_ep`, `readFEN_toFEN_castle_direct` (kernel computation)
 
+General forms for positions whose e.p. flag is not yet normalised (`WFfenPre` = `WFfen` without `epLegal`):
+`readFEN_toFEN_general`, `fixupEP_counters`, `readFEN_toFEN_fixup : readFEN (toFEN p) = .ok (fixupEP p)`.
+
 Not proved here (not needed for the round trip): the converse `readFEN s = .ok p → WFfen p` (the reader only
 produces normal forms), and nothing is said about FEN strings not produced by the writer.
 -/
@@ -736,10 +739,134 @@ theorem readFEN_toFEN_castle_direct :
     toFEN fenCastlePos = "r3k2r/8/8/8/8/8/8/R3K2R w Kq - 12 34" ∧ readFEN (toFEN fenCastlePos) = .ok fenCastlePos := by
   decide +kernel
 
-#print axioms readFEN_toFEN
-#print axioms readFEN_toFEN_start
-#print axioms readFEN_toFEN_ep
-#print axioms readFEN_toFEN_castle_direct
-#print axioms parsePlacement_placeChars
-#print axioms stoi_toString
+/-! ## Positions whose e.p. flag has not been normalised (raw `Position::makeMove` output) -/
+
+/-- `WFfen` without the requirement that the e.p. square survives `fixupEP` -/
+structure WFfenPre (p : Pos) : Prop where
+  codes : ∀ s : Sq, p.b[s] ≤ 12
+  pawns : ∀ s : Sq, (s.y = 0 ∨ s.y = 7) → p.b[s] ≠ WPAWN ∧ p.b[s] ≠ BPAWN
+  wking : countPc p.b WKING = 1
+  bking : countPc p.b BKING = 1
+  notInCheck : inCheck p.b (!p.wtm) = false
+  castleLt : p.castle < 16
+  castleK : p.castle &&& 2 ≠ 0 → p.b[4] = WKING ∧ p.b[7] = WROOK
+  castleQ : p.castle &&& 1 ≠ 0 → p.b[4] = WKING ∧ p.b[0] = WROOK
+  castlek : p.castle &&& 8 ≠ 0 → p.b[60] = BKING ∧ p.b[63] = BROOK
+  castleq : p.castle &&& 4 ≠ 0 → p.b[60] = BKING ∧ p.b[56] = BROOK
+  epOk : ∀ e : Sq, p.ep = some e → epPlausible p.b p.wtm e
+  hmcLt : p.hmc < 2 ^ 31
+  fmcLt : p.fmc < 2 ^ 31
+
+instance (p : Pos) : Decidable (WFfenPre p) :=
+  decidable_of_iff
+    ((∀ s : Sq, p.b[s] ≤ 12) ∧ (∀ s : Sq, (s.y = 0 ∨ s.y = 7) → p.b[s] ≠ WPAWN ∧ p.b[s] ≠ BPAWN) ∧
+     countPc p.b WKING = 1 ∧ countPc p.b BKING = 1 ∧ inCheck p.b (!p.wtm) = false ∧ p.castle < 16 ∧
+     (p.castle &&& 2 ≠ 0 → p.b[4] = WKING ∧ p.b[7] = WROOK) ∧ (p.castle &&& 1 ≠ 0 → p.b[4] = WKING ∧ p.b[0] = WROOK) ∧
+     (p.castle &&& 8 ≠ 0 → p.b[60] = BKING ∧ p.b[63] = BROOK) ∧ (p.castle &&& 4 ≠ 0 → p.b[60] = BKING ∧ p.b[56] = BROOK) ∧
+     (∀ e : Sq, p.ep = some e → epPlausible p.b p.wtm e) ∧ p.hmc < 2 ^ 31 ∧ p.fmc < 2 ^ 31)
+    ⟨fun ⟨a, b, c, d, e, f, g, h, i, j, k, m, n⟩ => ⟨a, b, c, d, e, f, g, h, i, j, k, m, n⟩,
+     fun w => ⟨w.codes, w.pawns, w.wking, w.bking, w.notInCheck, w.castleLt, w.castleK, w.castleQ, w.castlek,
+               w.castleq, w.epOk, w.hmcLt, w.fmcLt⟩⟩
+
+/-- `WFfen` is `WFfenPre` plus `epLegal` -/
+theorem WFfen.toPre {p : Pos} (w : WFfen p) : WFfenPre p :=
+  ⟨w.codes, w.pawns, w.wking, w.bking, w.notInCheck, w.castleLt, w.castleK, w.castleQ, w.castlek, w.castleq,
+   w.epOk, w.hmcLt, w.fmcLt⟩
+
+theorem WFfenPre.toWF {p : Pos} (w : WFfenPre p) (hl : (fixupEP { p with hmc := 0, fmc := 1 }).ep = p.ep) : WFfen p :=
+  ⟨w.codes, w.pawns, w.wking, w.bking, w.notInCheck, w.castleLt, w.castleK, w.castleQ, w.castlek, w.castleq,
+   w.epOk, hl, w.hmcLt, w.fmcLt⟩
+
+theorem WFfen_iff_pre (p : Pos) : WFfen p ↔ WFfenPre p ∧ (fixupEP { p with hmc := 0, fmc := 1 }).ep = p.ep :=
+  ⟨fun w => ⟨w.toPre, w.epLegal⟩, fun h => h.1.toWF h.2⟩
+
+/-- dropping the e.p. flag of a pre-well-formed position gives a well-formed one (used to reuse `castleFix_id`) -/
+theorem WFfenPre.clearEp {p : Pos} (w : WFfenPre p) : WFfen { p with ep := none } :=
+  ⟨w.codes, w.pawns, w.wking, w.bking, w.notInCheck, w.castleLt, w.castleK, w.castleQ, w.castlek, w.castleq,
+   (fun _ h => by cases h), rfl, w.hmcLt, w.fmcLt⟩
+
+/-- under `WFfenPre` the final checks pass; the e.p. square is whatever `fixupEP` leaves -/
+theorem fenFinish_general (p : Pos) (w : WFfenPre p) (hmc fmc : Int) :
+    fenFinish p.b p.wtm p.castle p.ep hmc fmc =
+      .ok { b := p.b, wtm := p.wtm, castle := p.castle, ep := (fixupEP { p with hmc := 0, fmc := 1 }).ep,
+            hmc := hmc, fmc := fmc } := by
+  simp only [fenFinish, w.wking, w.bking, w.notInCheck]
+  simp
+
+/-- the raw reader on the writer's output of a position with un-normalised e.p. flag -/
+theorem readFENRaw_toFEN_general (p : Pos) (w : WFfenPre p) :
+    readFENRaw (toFEN p) =
+      .ok { b := p.b, wtm := p.wtm, castle := p.castle, ep := (fixupEP { p with hmc := 0, fmc := 1 }).ep,
+            hmc := p.hmc, fmc := p.fmc } := by
+  rw [readFENRaw_eq, toFEN_toList]
+  unfold fenChars
+  rw [parsePlacement_placeChars p.b ⟨w.codes, w.pawns⟩]
+  have hside : (if p.wtm = true then 'w' else 'b') ≠ ' ' := by cases p.wtm <;> decide
+  have hwtm : ((if p.wtm = true then 'w' else 'b') == 'w') = p.wtm := by cases p.wtm <;> decide
+  simp only [Except.bind, skipSpaces_space, skipSpaces_ne _ _ hside]
+  obtain ⟨c0, c1⟩ := castle_words p.castle w.castleLt
+  obtain ⟨e0, e1⟩ := epChars_words p.ep
+  obtain ⟨h0, h1⟩ := digits_words p.hmc
+  obtain ⟨f0, f1⟩ := digits_words p.fmc
+  have hcf : castleFix p.b p.castle = p.castle := castleFix_id { p with ep := none } w.clearEp
+  rw [fenReadRest_words _ _ _ _ _ _ c0 c1 e0 e1 h0 h1 f0 f1, parseCastle_castleToString _ w.castleLt]
+  simp only [Except.bind, hwtm, hcf, stoi_toDigits _ w.hmcLt, stoi_toDigits _ w.fmcLt, Option.getD_some]
+  have hep : epField p.b p.wtm (epChars p.ep ++ ' ' :: (Nat.toDigits 10 p.hmc ++ ' ' :: Nat.toDigits 10 p.fmc)) = .ok p.ep := by
+    cases hpe : p.ep with
+    | none => exact epField_dash _ _ _
+    | some e => exact epField_sq _ _ _ _ (w.epOk e hpe)
+  rw [hep]
+  exact fenFinish_general p w _ _
+
+/-- **C02 (FEN part), general form**: a position with possibly un-normalised e.p. flag, written as FEN and read
+    back, is the same position with the e.p. square normalised by the reader's fix-up -/
+theorem readFEN_toFEN_general (p : Pos) (h : WFfenPre p) :
+    readFEN (toFEN p) = .ok { p with ep := (fixupEP { p with hmc := 0, fmc := 1 }).ep } := by
+  rw [readFEN, readFENRaw_toFEN_general p h]
+  simp [Except.map, RawPos.toPos]
+
+/-! ### the fix-up ignores the counters -/
+
+theorem pseudo_counters (p : Pos) (a b : Nat) (m : Mv) : pseudo { p with hmc := a, fmc := b } m = pseudo p m := rfl
+
+theorem apply_b_counters (p : Pos) (a b : Nat) (m : Mv) : (apply { p with hmc := a, fmc := b } m).b = (apply p m).b := rfl
+
+theorem legalB_counters (p : Pos) (a b : Nat) (m : Mv) : legalB { p with hmc := a, fmc := b } m = legalB p m := by
+  unfold legalB
+  rw [pseudo_counters, apply_b_counters]
+
+theorem genLegal_counters (p : Pos) (a b : Nat) : genLegal { p with hmc := a, fmc := b } = genLegal p := by
+  unfold genLegal
+  have : legalB { p with hmc := a, fmc := b } = legalB p := funext (legalB_counters p a b)
+  rw [this]
+  rfl
+
+private theorem ite_ep (c : Prop) [i1 : Decidable c] [i2 : Decidable c] (x y x' y' : Pos)
+    (hx : x.ep = x'.ep) (hy : y.ep = y'.ep) : (@ite _ c i1 x y).ep = (@ite _ c i2 x' y').ep := by
+  cases i1 <;> cases i2 <;> simp_all
+
+/-- `fixupEP` does not look at the half-move clock and the move counter -/
+theorem fixupEP_counters (p : Pos) (a b : Nat) : (fixupEP { p with hmc := a, fmc := b }).ep = (fixupEP p).ep := by
+  obtain ⟨bd, wtm, castle, ep, hmc, fmc⟩ := p
+  cases ep with
+  | none => rfl
+  | some e =>
+    simp only [fixupEP]
+    rw [genLegal_counters ⟨bd, wtm, castle, some e, hmc, fmc⟩ a b]
+    simp only [Pos.at]
+    exact ite_ep _ _ _ _ _ rfl rfl
+
+theorem fixupEP_eq (p : Pos) : fixupEP p = { p with ep := (fixupEP p).ep } := by
+  obtain ⟨bd, wtm, castle, ep, hmc, fmc⟩ := p
+  cases ep with
+  | none => rfl
+  | some e =>
+    simp only [fixupEP]
+    split <;> rfl
+
+/-- **C02 (FEN part), fix-up form**: writing a position and reading it back applies exactly `fixupEP` -/
+theorem readFEN_toFEN_fixup (p : Pos) (h : WFfenPre p) : readFEN (toFEN p) = .ok (fixupEP p) := by
+  rw [readFEN_toFEN_general p h, fixupEP_counters p 0 1]
+  exact congrArg Except.ok (fixupEP_eq p).symm
+
 end Chess
